@@ -80,6 +80,12 @@ def scenario(desc):
             if pr.code != 0 or pr.json() is None:
                 raise common.EngineError("prefix run %d failed: %r" % (i, pr))
             last_doc, last_logs = pr.json(), prefix_logs(i)
+        if desc.get("last_noop"):
+            # the last completed run selected no targets (a checkpoint exists, everything changed is pending)
+            pr = r.mr("run", "-c", "build", env=r.trace_env())
+            if pr.code != 0 or pr.json() is None:
+                raise common.EngineError("no-op prefix run failed: %r" % pr)
+            last_doc, last_logs = pr.json(), []
         if prefix_max != maxr:
             # the retention setting is edited between runs (still >= 2)
             r.cfg["max_retained_runs"] = maxr
@@ -228,6 +234,12 @@ def scenarios(tier):
     for st in KILL_STATES:
         out.append({"max": 2, "prefix": 1, "listener": True, "crash": {"kind": "kill", "state": list(st)}})
         out.append({"max": 10, "prefix": 10, "crash": {"kind": "kill", "state": list(st)}})
+    # the last completed run before the victim was a run of nothing
+    for name in POINTS:
+        out.append({"max": 2, "prefix": 1, "last_noop": True, "crash": {"kind": "point", "name": name}})
+    for st in KILL_STATES:
+        out.append({"max": 2, "prefix": 1, "last_noop": True, "crash": {"kind": "kill", "state": list(st)}})
+        out.append({"max": 3, "prefix": 2, "last_noop": True, "crash": {"kind": "kill", "state": list(st)}})
     # a victim that executes its command twice (six children): crash points are hit in the second pass too
     for name in POINTS:
         out.append({"max": 2, "prefix": 1, "victim": "two-commands", "crash": {"kind": "point", "name": name}})
